@@ -189,11 +189,23 @@ void AllocSim::begin_op()
 	fail_sites.clear();
 }
 std::string AllocSim::site_of(const LiveRec &r) const { return site_chain(r.frames, r.nframes); }
+std::string AllocSim::first_live_site() const
+{
+	const LiveRec *best = nullptr;
+	for (auto &kv : live)
+		if (!best || kv.second.id < best->id)
+			best = &kv.second;
+	return best ? site_of(*best) : std::string("?");
+}
 std::string AllocSim::describe_live(size_t max) const
 {
+	std::vector<const LiveRec *> v;
+	for (auto &kv : live)
+		v.push_back(&kv.second);
+	std::sort(v.begin(), v.end(), [](const LiveRec *a, const LiveRec *b) { return a->id < b->id; });
 	std::string s;
 	size_t n = 0;
-	for (auto &kv : live)
+	for (auto *r : v)
 	{
 		if (n++ >= max)
 		{
@@ -201,9 +213,9 @@ std::string AllocSim::describe_live(size_t max) const
 			break;
 		}
 		char b[64];
-		snprintf(b, sizeof b, " #%llu(%zu bytes)@", (unsigned long long)kv.second.id, kv.second.size);
+		snprintf(b, sizeof b, " #%llu(%zu bytes)@", (unsigned long long)r->id, r->size);
 		s += b;
-		s += site_of(kv.second);
+		s += site_of(*r);
 	}
 	return s;
 }
